@@ -144,8 +144,12 @@ def check_state(desc, sc, pats, res, thin):
                         res.add_violation(ID, run.viol('pathlib-duplicate', {'tree': desc, 'pattern': pl, 'flags': fs, 'method': meth},
                                                        'no file twice', [os.path.relpath(x, sc.root) for x in got][:30]))
         # ---- the same keyword arguments on both sides: match(p, REALPATH, exclude=e) <=> membership in rglob(p, exclude=e)
-        for p_, e_ in (('.h/a', 'a'), ('.h/*', '*'), ('.*', '*'), ('**/.h', '?h'), ('a/.h', '.h'), ('*', 'a'), ('.h/**', 'a/*'), ('**', '*/a')):
-            for fs in ('GE', 'E'):
+        for p_, e_ in (('.h/a', 'a'), ('.h/*', '*'), ('.*', '*'), ('**/.h', '?h'), ('a/.h', '.h'), ('*', 'a'), ('.h/**', 'a/*'), ('**', '*/a'),
+                       # an empty pattern matches nothing; `!` is literal text once exclude= is given
+                       ('', None), (['a', ''], None), ('a|', None), ('|b', None), (['*', '!a'], 'zz'), ('!a', 'b'), ('*|!a/*', 'zz'), ('!*', None)):
+            for fs in ('GE', 'E', 'GENS'):
+                if ('|' in p_ if isinstance(p_, str) else False) and 'S' not in fs:
+                    continue
                 res.n['evaluations'] += 1
                 fl = pl_flags(fs)
                 try:
